@@ -328,7 +328,7 @@ def check_C08(tier, seed):
 
 def check_C16(tier, seed):
     return run_ref_property("C16", tier, seed, cores.budget_catalogue(), ["C16"], 2, 3, tq=120, tt=1800,
-                            flagsets_q=("std",), flagsets_t=("std", "lr"), max_steps=300_000, rnd=(6, 60, ("throw",)),
+                            flagsets_q=("std",), flagsets_t=("std", "lr"), max_steps=300_000, rnd=(8, 80, ("throw", "state")),
                             bounds_extra={"budget": "symbolic, 1..24 (1..12 for the non-terminating grammars)", "Memoize": "symbolic"})
 
 
@@ -810,7 +810,7 @@ func Harness_C03rt(n int) {
     tmo = 120 if quick else 900
     agg = merge_agg(agg, overlay_explore(rep, "C03", ov, "Harness_C03layout$", 0, 0, tmo, "c03_layout", sample_every=23, max_triage=3, args=set(lay_args)))
     agg = merge_agg(agg, overlay_explore(rep, "C03", ov, "Harness_C03comment$", 0, 0, tmo, "c03_comment", sample_every=23, max_triage=3, args=set(lay_args[::2] if quick else lay_args)))
-    esc_args = [q * 16 + n for q in (0, 1) for n in ((1, 3, 5) if quick else (1, 3, 5, 9))]
+    esc_args = [q * 16 + n for q in (0, 1, 2, 3) for n in ((1, 3, 5) if quick else (1, 3, 5, 9))]  # double, single, class, class range bound
     agg = merge_agg(agg, overlay_explore(rep, "C03", ov, "Harness_C03escape$", 0, 0, tmo, "c03_escape", sample_every=23, max_triage=3, args=set(esc_args)))
     cls_args = list(range(0, (3 if quick else 4) + 1)) + [10 * sh + k for sh in range(1, 9) for k in range(1, (2 if quick else 3) + 1)]
     agg = merge_agg(agg, overlay_explore(rep, "C03", ov, "Harness_C03class$", 0, 0, tmo, "c03_class", sample_every=23, max_triage=3, args=cls_args))
@@ -819,7 +819,7 @@ func Harness_C03rt(n int) {
     agg.pop("_samples", None)
     std_cov(rep, agg, rt, {"roundtrip_grammars": len(rt), "layouts": "4 styles: spaces, newline+tab with = and ;, unicode arrows with // and /* */ comments",
                            "layout_holes": "%d symbolic layout bytes at %d token boundaries of %d skeletons; comments with 2 symbolic bytes" % (hole_len, len(lay_args), len(lay)),
-                           "escape_holes": "escape bodies of length %s in double and single quotes, all bytes symbolic, assumed valid by the reference decoder" % ("1,3,5" if quick else "1,3,5,9"),
+                           "escape_holes": "escape bodies of length %s in double and single quotes and inside classes (alone and as a range bound), all bytes symbolic, assumed valid by the reference decoder" % ("1,3,5" if quick else "1,3,5,9"),
                            "class_holes": "class bodies of <= %d symbolic printable ASCII bytes, and <= %d symbolic bytes between 8 concrete prefix/suffix shapes (pending character, complete range, two ranges, leading/trailing dash); ^ and i symbolic" % ((3, 2) if quick else (4, 3)),
                            "random_grammars": "seeded sample (seed %d) added to the round trips" % seed,
                            "operator_holes": "prefix and suffix operator symbolic in a skeleton using all eight binding levels",
@@ -1094,6 +1094,7 @@ def check_C04(tier, seed):
 def check_C18(tier, seed):
     quick = tier == "quick"
     cat = cores.state_catalogue()[:: (4 if quick else 1)] + cores.composites()[: (3 if quick else 10)] + cores.context_catalogue()[:2] + cores.throw_catalogue()[:2]
+    cat = cat + rnd_cat(tier, seed, 4, 40, ("state", "throw"))
     lr = cores.lr_catalogue()[: (1 if quick else 3)]
     rep = Report("C18", tier, seed, "other")
     w = Work()
@@ -1137,9 +1138,9 @@ def check_C18(tier, seed):
     catcheck.prepare(w, cases)
     agg = catcheck.explore(w, rep, cases, "C18", r"Harness_C18$", N, tmo, "ref", seed=seed, validate_pkgs=5 if quick else 16, confirm=confirm)
     # aborted middle call (symbolic expression budget): grammars with rules, labels, state and recovery operators
-    ab = [c_ for c_ in cases if c_.id.startswith(("tr_", "c_", "st_inc_rule", "st_inc_first", "lr_"))]
+    ab = [c_ for c_ in cases if c_.id.startswith(("tr_", "c_", "st_inc_rule", "st_inc_first", "lr_", "rnd"))]
     if quick:
-        ab = [c_ for c_ in ab if c_.id.endswith(("_std", "_lr"))][:3] + [c_ for c_ in ab if c_.id.endswith("_opt")][:2]
+        ab = [c_ for c_ in ab if c_.id.endswith(("_std", "_lr"))][:3] + [c_ for c_ in ab if c_.id.endswith("_opt")][:2] + [c_ for c_ in ab if c_.id.startswith("rnd")][:2]
     agg = merge_agg(agg, catcheck.explore(w, rep, ab, "C18", r"Harness_C18abort$", N, tmo, "ref", seed=seed, validate_pkgs=3 if quick else 8, confirm=confirm))
     rep.cov.update({
         "explanation": "Goroutine interleavings are not encoded (DESIGN.md §5). Decided by the solver for all pairs of inputs within the bound on the catalogue: (1) during Parse no store, map update or delete targets an object reachable from a package-level variable of the generated package (engine monitor on every Store/MapUpdate/delete); (2) a map is empty when it is handed to sync.Pool.Put and is not read or written again until Pool.Get returns it; (3) Pool.Get returns nondeterministically any pooled map or a fresh one and the result of a Parse is the same as when it ran first. Given 1-3 and the linearizability of sync.Pool (trusted), two concurrent calls share no mutable location: every schedule yields the sequential results and there is no data race - a paper argument, stated as such.",
